@@ -133,6 +133,18 @@ def gen_case(rng, root, gpg):
                                     signer=signer, kid=kid, tamper=tamper))
         desc["files"].append({"name_kid": kid[:8], "signer": signer.keyid[:8], "signer_kind": signer.kind,
                               "tamper": tamper, "fmt": fmt, "wrong_name": wrong_name, "counts_for": main if good else None})
+    if gpg and rng.random() < 0.6:
+        # an ENVELOPE lying under the id of an authorised gpg key (or of one of its subkeys): gpg keys cannot check
+        # envelopes, the file cannot count - and, like any file that does not count, it decides nothing
+        gids = [a for a in loaded_names(pubkeys, keystore) if a == m.keyid or a in (m.pub.get("subkeys") or {})]
+        gids = [a for a in gids if a[:8] not in used_names]
+        if gids:
+            kid = rng.choice(gids)
+            used_names.add(kid[:8])
+            sg = rng.choice(plain + [stranger])
+            links.append(scen.link_spec(sg, "dsse", step["name"], step["materials"], bad_products, signer=sg, kid=kid))
+            desc["files"].append({"name_kid": kid[:8], "signer": sg.keyid[:8], "signer_kind": sg.kind, "tamper": None, "fmt": "dsse",
+                                  "wrong_name": False, "counts_for": None, "envelope_under_gpg_id": True})
     step["links"] = links
     step["pubkeys"] = pubkeys
     step["threshold"] = thr
